@@ -613,7 +613,9 @@ func (y *c10Sys) menu(s *c10State) []string {
 	add(active("A1", "P8"), "unauth:A1:P8:500")
 	add(active("A2", "P8"), "unauth:A2:P8:500")
 	add(active("A1", "P9"), "unauth:A1:P9:500")
-	add(wide && active("A1", "P8"), "unauth:A1:P8:1000")
+	// more than was authorized in this epoch: the part beyond NewPos comes out of the effective pos
+	add((wide || c11) && active("A1", "P8"), "unauth:A1:P8:1000")
+	add((wide || c11) && active("A1", "P9"), "unauth:A1:P9:1000")
 	add(wide && active("A1", "P8"), "unauth2:A1:P8:500")
 	add(wide && active("O2", "P8"), "unauth:O2:P8:500")
 	add(wide && active("A1", "P1"), "unauth:A1:P1:500")
